@@ -57,6 +57,10 @@ def stress():
             body = opener * n + "1" + closer * n
             out.append("fn main() { let v = %s; }" % body)
             out.append("fn main() { %s }" % (opener * n))                # unclosed
+        out.append("fn main() { let x = 1; let v = " + "match x { _ => " * n + "1" + " }" * n + "; }")          # default arms in default arms
+        out.append("fn main() { let x = 1; let v = " + "match x { 1 => 2, _ => " * n + "1" + " }" * n + "; }")
+        out.append("fn main() { let v = " + "if true { 1 } else { " * n + "1" + " }" * n + "; }")
+        out.append("fn main() { let v = " + "try { 1 } catch e { " * n + "1" + " }" * n + "; }")
         out.append("fn main() { x" + ".a" * n + "; }")
         out.append("fn main() { f" + "()" * n + "; }")
         out.append("fn main() { let t: " + "[" * n + "int" + "]" * n + " = 1; }")
@@ -70,6 +74,14 @@ def stress():
     out.append("fn main() { " + "x; " * 21000 + "}")
     out.append("\x00" * 100)
     out.append("\xff\xfe" * 50)
+    # import statements: cycles through the entry module, self imports, chains (the host decides what a name means)
+    for body in ("import a from main;", "import a from imp;", "import { a, b } from imp; import c from main;", "import a from other;",
+                 "import a from other; import b from main;", "import type T from imp; import templ X from main; import trigger t from imp;",
+                 "import a from b; import a from b;", "import a from", "import { a from main;", "import a from main"):
+        out.append(body + "\nfn main() { }\n")
+        out.append(body + "\npub fn f() { }\npub fn a() { }\nfn main() { }\n")
+    out.append("import trigger minute from triggers;\nevent fn cb(e: int) { }\nlet a = { trigger cb at minute(1); 1 };\nfn main() { }\n")
+    out.append("let a = { return 1; };\nlet b = { break; 2 };\nlet c = fn() -> int { 1 };\nfn main() { }\n")
     out.append("fn main() { let x = 9223372036854775808; }")
     out.append("fn main() { let x = 1" + "0" * 400 + ".5; }")
     return out
@@ -82,7 +94,8 @@ def run(args):
     rep.cov["rule"] = ("inputs derived from the specifications: every string over HmsLex's class alphabet up to length %d, "
                        "lexeme adjacencies of its catalogue, token-level truncation / deletion / replacement / insertion of "
                        "valid programs (spec-AST families and the repository's .hms files), nesting depth up to 1000 and "
-                       "64 KiB inputs; each as entry module and as imported module text; non-trivial = distinct inputs" %
+                       "64 KiB inputs; each as entry module, as imported module text, and (inputs with import statements) as the "
+                       "text a host returns for every module name; non-trivial = distinct inputs" %
                        (4 if thorough else 3))
     worker = C.build_worker()
     pool = C.Pool(worker, memlimit_kb=6 * 1024 * 1024)
@@ -127,9 +140,9 @@ def run(args):
     inputs = list(dict.fromkeys(inputs))
     rep.notes["inputs"] = len(inputs)
 
-    def sweep(srcs, as_import, label):
+    def sweep(srcs, as_import, label, echo=False):
         batches = [srcs[i:i + BATCH] for i in range(0, len(srcs), BATCH)]
-        res = pool.map([{"op": "total", "id": i, "a": {"srcs": b, "as_import": as_import}} for i, b in enumerate(batches)],
+        res = pool.map([{"op": "total", "id": i, "a": {"srcs": b, "as_import": as_import, "echo": echo}} for i, b in enumerate(batches)],
                        timeout=120, chunk=1)
         suspects = []
         for b, r in zip(batches, res):
@@ -139,7 +152,7 @@ def run(args):
                 rep.count(len(b))
         # a batch that died is replayed input by input
         if suspects:
-            res1 = pool.map([{"op": "total", "id": i, "a": {"srcs": [s], "as_import": as_import}} for i, s in enumerate(suspects)],
+            res1 = pool.map([{"op": "total", "id": i, "a": {"srcs": [s], "as_import": as_import, "echo": echo}} for i, s in enumerate(suspects)],
                             timeout=20, chunk=1)
             for s, r in zip(suspects, res1):
                 rep.count()
@@ -156,6 +169,10 @@ def run(args):
     sweep(inputs, False, "entry")
     imp_inputs = inputs if thorough else inputs[::4]
     sweep(imp_inputs, True, "import")
+    # a host that answers every module name with the input itself: every input with an import statement imports itself
+    echo_inputs = [s for s in inputs if "import" in s and "from" in s]
+    rep.notes["inputs_with_imports"] = len(echo_inputs)
+    sweep(echo_inputs, True, "import-echo", echo=True)
     for s in rnd.sample(inputs, 4):
         rep.sample({"input": s[:200], "len": len(s)})
     return rep.finish()
